@@ -5,65 +5,22 @@
   correspondence check prints Python times *with their type*, so agreement with the model on an
   input is the statement that the implementation produced an int there.  Not a theorem of this file.
 
-  Layer 2 (this file): the set of float-introducing expression sites of the modelled source files is
-  regenerated from /repo on every run (`Gen.floatSites`, with the nearest enclosing `int(…)`/`round(…)`
-  of each site).  `sites_guarded` is kernel-checked over the whole generated list: every site is
-  either inside an `int(…)`/`round(…)` call, or is one of the sites listed (and argued) in
-  `unguardedKnown`.  A new `/` that feeds a tick, or a removed `int(`, changes the generated list and
-  breaks the theorem.
+  Layer 2: `Props/C11c.lean` — the float-taint typing over facts regenerated from /repo on every run:
+  no float-producing expression reaches a tick, an attribute store, or an argument of a library function.
+  (`Gen.floatSites` still lists every float-introducing expression site with its nearest enclosing
+  `int(…)`/`round(…)`, for the evidence file.  An earlier version of this file pinned the 15 unguarded sites by their
+  source text (`sites_guarded`); that was subsumed by the typing, which follows the value instead of the
+  spelling, and was dropped because it broke on any harmless rename inside such an expression.)
 
   Layer 3: the `PyNum` model of the guarding expressions: each is int-typed for all integer arguments
   and equals the floor-division formula the Lean models use.
 -/
-import SCoda.Gen.FloatSites
 import SCoda.Gen.Settings
 import SCoda.Model.PyNum
 import SCoda.Model.Bar
 import SCoda.Model.Token
 namespace SCoda.C11
 open SCoda
-
-/-- float-introducing sites that are *not* syntactically inside `int(…)`/`round(…)`, each with the
-    reason it cannot put a float into a tick: (file, function, source text, reason) -/
-def unguardedKnown : List (String × String × String × String) := [
-  ("scoda/midi/midi_file.py", "convert", "PPQN / self.PPQN",
-   "scaling factor; flows only into current_point_in_time, which is read only through round(current_point_in_time)"),
-  ("scoda/misc/util.py", "bin_velocity", "np.digitize(velocity, bins, right=True)",
-   "bin index, converted with .item(-1) to a Python int; a velocity, not a tick"),
-  ("scoda/misc/util.py", "find_minimal_distance", "math.inf",
-   "initial distance, only compared against; the function returns an index"),
-  ("scoda/misc/util.py", "get_default_step_sizes", "2 ** lower_bound_shift", "int ** non-negative int is an int"),
-  ("scoda/misc/util.py", "get_default_step_sizes", "2 ** upper_bound_shift", "int ** non-negative int is an int"),
-  ("scoda/misc/util.py", "get_dotted_note_durations", "2 ** (dotted_note_iteration + 1)", "int ** positive int is an int"),
-  ("scoda/misc/util.py", "get_dotted_note_durations", "1 / 2 ** (dotted_note_iteration + 1)",
-   "candidate_duration is a float; it is appended only as int(candidate_duration) after .is_integer()"),
-  ("scoda/misc/util.py", "get_note_durations", "i /= 2",
-   "loop multiplier; durations are appended only as int(i * base_value)"),
-  ("scoda/sequences/absolute_sequence.py", "get_interleaved_message_pairings", "float('inf')",
-   "sentinel next-time of an exhausted channel; only compared with min(), never stored"),
-  ("scoda/sequences/relative_sequence.py", "get_sequence_duration_relation", "duration / PPQN",
-   "returns the duration in quarter notes (documented float); not written to any message (Bar no longer uses it for ticks: D9)"),
-  ("scoda/sequences/relative_sequence.py", "scale", "1.0", "validation of the factor: (factor * 1.0).is_integer()"),
-  ("scoda/sequences/relative_sequence.py", "scale", "1 / factor",
-   "validation, and the factor < 1 branch, which is outside the property (integer arguments)"),
-  ("scoda/tokenisation/notelike_tokenisation.py", "get_info", "math.nan", "placeholder annotation for non-note tokens; not a tick"),
-  ("scoda/tokenisation/notelike_tokenisation.py", "tokenise", "float(scaled)", "integrality test float(scaled).is_integer()"),
-  ("scoda/tokenisation/notelike_tokenisation.py", "tokenise", "DEFAULT_TIME_SIGNATURE_DENOMINATOR / msg_denominator",
-   "scaled numerator; used only after the integrality test and as int(scaled)")
-]
-
-def siteKey (s : String × String × String × String × String × Nat) : String × String × String := (s.1, s.2.1, s.2.2.2.1)
-def siteGuard (s : String × String × String × String × String × Nat) : String := s.2.2.2.2.1
-
-def siteOk (s : String × String × String × String × String × Nat) : Bool :=
-  siteGuard s != "none" || (unguardedKnown.map (fun k => (k.1, k.2.1, k.2.2.1))).contains (siteKey s)
-
-/-- every float-introducing site of the current source is guarded by `int`/`round` or is a known, argued site -/
-theorem sites_guarded : Gen.floatSites.all siteOk = true := by decide
-
-/-- and the known list has no stale entry: each of its sites still exists in the source -/
-theorem known_sites_exist :
-    unguardedKnown.all (fun k => (Gen.floatSites.map siteKey).contains (k.1, k.2.1, k.2.2.1)) = true := by decide
 
 /-- the evaluated default step sizes, note values and velocity bins are all int-typed in Python -/
 theorem defaults_int_typed :
